@@ -10,7 +10,25 @@ core._ANCHOR_BASE = None      # analyse the tree as it is
 core._LOCALS_BASE = {}
 f = core.Facts('default')
 old = json.load(open(os.path.join(core.VERIF, 'allow', 'anchors.json')))
-fns = {d: {'generics': v.get('generics') or [], 'inputs': v.get('inputs') or [], 'output': v.get('output'), 'vis': v.get('vis')}
+from verif.core import callee_all, last_seg
+
+
+def fingerprint(d):
+    """what the function calls (last path segments, method names): used only to recognise it again after a rename that also changed its signature"""
+    b = f.bodies.get(d)
+    if b is None:
+        return []
+    out = set()
+    for n in walk(b['body']):
+        if n.get('k') in ('call', 'mcall'):
+            for c in callee_all(n)[:1]:
+                out.add(last_seg(c.split('::<')[0]))
+            if n.get('k') == 'mcall' and n.get('name'):
+                out.add(n['name'])
+    return sorted(out)
+
+
+fns = {d: {'generics': v.get('generics') or [], 'inputs': v.get('inputs') or [], 'output': v.get('output'), 'vis': v.get('vis'), 'calls': fingerprint(d)}
        for d, v in sorted(f.fns.items())}
 adts = {p: {'kind': a.get('kind'), 'members': [[v['name'], [x['name'] for x in v.get('fields', [])]] for v in a.get('variants', [])]}
         for p, a in sorted(f.adts.items())}
